@@ -245,7 +245,59 @@ pub fn enumerate_single_faults(base: &[u8], lay: &Layout, f: &mut dyn FnMut(&'st
 
 /// One PRNG-drawn fault applied to `b`; returns the kind, or `None` when it
 /// changed nothing.
+/// Append so many octets that, after the two flag octets, the reader holds
+/// `65536*k + r` octets with `r` small or just around the declared body
+/// length: everything a 16-bit view of "octets remaining" would get wrong.
+/// How many octets to append to a message of `len` octets with declared
+/// length `declared` so that, after the two flag octets, the reader holds
+/// `65536*k + r` octets with `r` small or just around the declared body
+/// length: everything a 16-bit view of "octets remaining" would get wrong.
+pub fn trail_for(rng: &mut Rng, len: usize, declared: usize) -> usize {
+    let declared = declared as i64;
+    let r = match rng.below(6) {
+        0 => rng.range(0, 12) as i64,
+        1 => declared - 12 + *rng.pick(&[-2i64, -1, 0, 1]),
+        2 => declared - 2 + *rng.pick(&[-1i64, 0, 1]),
+        3 => rng.range(0, (declared.max(13) - 12) as u64) as i64,
+        4 => 65_535 - rng.range(0, 3) as i64,
+        _ => rng.range(0, 65_535) as i64,
+    }
+    .clamp(0, 65_535) as usize;
+    let k = if rng.chance(1, 4) { 2 } else { 1 };
+    (65_536 * k + r + 2).saturating_sub(len)
+}
+
+pub fn long_trail(rng: &mut Rng, b: &mut Vec<u8>) -> bool {
+    if b.len() < 2 || b.len() > 70_000 {
+        return false;
+    }
+    let declared = if b.len() >= 4 { u16::from_be_bytes([b[2], b[3]]) as usize } else { 0 };
+    let extra = trail_for(rng, b.len(), declared);
+    if extra == 0 {
+        return false;
+    }
+    let want = b.len() + extra;
+    let fill = match rng.below(3) {
+        0 => 0u8,
+        1 => 0xFF,
+        _ => rng.u8(),
+    };
+    if fill == 0 || fill == 0xFF {
+        b.resize(want, fill);
+    } else {
+        let t = rng.bytes(extra.min(64));
+        while b.len() < want {
+            let take = (want - b.len()).min(t.len());
+            b.extend_from_slice(&t[..take]);
+        }
+    }
+    true
+}
+
 pub fn random_fault(rng: &mut Rng, b: &mut Vec<u8>) -> Option<&'static str> {
+    if rng.chance(1, 48) && long_trail(rng, b) {
+        return Some("long-trail");
+    }
     let lay = layout_of(b);
     let before = b.clone();
     let kind: &'static str = match rng.below(13) {
